@@ -19,14 +19,18 @@
      own first step (AReg): the counters are incremented INSIDE the goroutines (node.go 357-408, 1288-1292);
    - Add on a channel takes the channel's mutex and keeps it while it waits for room (PSend); Close
      needs the same mutex;
-   - processUnconfirmedTxs leaves its loop on a processing error (requestStop, break) while the
-     channel stays open; sendOutgoing never leaves its loop early;
+   - processUnconfirmedTxs, after a processing error (requestStop), keeps taking and dropping what
+     arrives until its channel is closed (fix 99e17c5); the model parameter `daf = false` gives the
+     behaviour before that fix (requestStop, break - the channel stays open without a consumer: D26);
+     sendOutgoing never leaves its loop early;
    - processBlocks returns when queueOutgoing fails or ProcessBlock fails (no restart).
    Simplifications, all stated: restart() is one step (its two lock regions cannot be separated by a
    step that matters: the thread is alive, so Run cannot reach its restart decision in between);
    check() of monitorIncoming is part of the body that handled the previous message (the body's
    length is arbitrary); one untrusted node stands for all of them; sleeps are not steps; calls from
-   the application other than Stop (SendTx, BroadcastTx) are not in the model.
+   the application other than Stop (SendTx, BroadcastTx) are not in the model; node.txStateLock (held
+   around a tx-state read-modify-write and the callback that reports it) is a leaf lock - nothing
+   blocks while it is held - so it is part of the atomic KCall step.
    The work a goroutine does for one message / one round is a body of at most n sub-steps (n is
    arbitrary, chosen when the body starts): handler callbacks and storage mutations (KCall), queueing
    an outgoing message (KOut), queueing an unconfirmed tx (KTx), starting an untrusted node (KSpawn),
@@ -103,7 +107,7 @@ Record dat := Dat {
   d_disk : Z;         (* version written by the last save phase *)
   d_calls : Z;        (* handler invocations so far *)
   d_late : bool;      (* a handler was invoked while stopped = true *)
-  d_pufail : bool;    (* processUnconfirmedTxs of the current round left its loop on an error *)
+  d_pufail : bool;    (* processUnconfirmedTxs of the current round had a processing error (failed = true / left its loop) *)
   d_overlap : bool    (* Run started goroutines while goroutines of an earlier round still existed *)
 }.
 
@@ -216,6 +220,8 @@ Inductive act :=
 Section Model.
 Variable cap : Z.       (* capacity of both channels (100 in the code) *)
 Variable ucfg : bool.   (* config.UntrustedCount != 0: monitorUntrustedNodes is started *)
+Variable daf : bool.    (* processUnconfirmedTxs keeps draining its channel after a processing error (the code
+                           since fix 99e17c5); false: it leaves its loop (requestStop, break) as it did before *)
 
 (* the Add returned; ok = the message was queued.  processBlocks returns when queueOutgoing fails *)
 Definition after_add w (t : tid) (f : nat) (ok : bool) : sw :=
@@ -245,10 +251,12 @@ Definition work_step w (t : tid) (f : nat) (k : kind) : option sw :=
   match t with
   | SO =>   (* sendAsync returned; on an error restart() and keep emptying the channel *)
       Some (set_thread (match k with KFail => restart w | _ => w end) SO (TLive PTop 0))
-  | PU =>   (* processUnconfirmedTx returned; on an error requestStop and break *)
+  | PU =>   (* processUnconfirmedTx returned (or, once failed = true, the item was just dropped) *)
       match k with
-      | KFail => Some (exit_thread (set_pufail (request_stop w)) PU)
-      | _ => Some (set_thread (callback w PU) PU (TLive PTop 0))
+      | KFail => if d_pufail (w_dat w) then Some (set_thread w PU (TLive PTop 0))
+                 else if daf then Some (set_thread (set_pufail (request_stop w)) PU (TLive PTop 0))  (* requestStop; failed = true *)
+                 else Some (exit_thread (set_pufail (request_stop w)) PU)                              (* requestStop; break *)
+      | _ => Some (set_thread (if d_pufail (w_dat w) then w else callback w PU) PU (TLive PTop 0))
       end
   | _ =>
       match k, f with
@@ -457,8 +465,8 @@ End Model.
    in a few counters next to it (the synchronisation protocol itself is the subject of C02). *)
 
 Definition scap : Z := 100.
-Definition sstep_sys := step scap false.
-Definition sapply := apply scap false.
+Definition sstep_sys := step scap false true.
+Definition sapply := apply scap false true.
 
 Definition enabled (w : sw) (a : act) : bool := match sstep_sys w a with Some _ => true | None => false end.
 
